@@ -1,5 +1,7 @@
 (* fmt_driver.ml — model and oracle side of the format cluster (C08)
-   case lines:   fmt <format-hex> <op>*        op  = p:<arg>  |  a:<arg>,<arg>,...  |  a:.
+   case lines:   fmt <format-hex> <op>*        op  = p:<arg>  |  a:<arg>,<arg>,...  |  a:.  |  q:.  (ask for the text, ignore it)
+                 lit <format-hex> <op>*        the same through the "..."_nf literal with that text (a fixed table in the C++ driver)
+                 excf <format-hex> <op>*       raise("pre:", formatter, "!") and what()
                  os <width> <fill-hex> <l|r|i> <format-hex> <op>*      operator<< into a stream holding "pre:" with that pending width/fill/adjustment, then "!"
                  rel <scenario> <format-hex> <other-format-hex> <op>* / <op>*     the formatter object is copied / moved / relocated between the two groups
                  seq <format-hex> <op>* / <format-hex> <op>* / ...     (several formatters, one after the other)
@@ -47,6 +49,10 @@ let parse_op (w : string) : op =
   | 'p' -> Pct (parse_arg (tail w 2))
   | 'a' -> Args (list_of_wire parse_arg (tail w 2))
   | _ -> failwith "op"
+(* the op  q:.  asks the formatter for its text in the middle of a chain (str() / conversion / operator<<) and ignores the answer or
+   the exception.  str() is const — in the model str_of is a function of the value — so a query is no operation on the model:
+   the ops of a case are the words that are not queries *)
+let parse_ops (ws : string list) : op list = List.map parse_op (List.filter (fun w -> w <> "q:.") ws)
 let obs_res = function Ok s -> "S " ^ hex_of_str s | Raise _ -> "RAISE"
 let obs_short = function Ok s -> hex_of_str s | Raise _ -> "R"
 (* seq: formatter descriptions separated by the word "/" *)
@@ -57,7 +63,7 @@ let rec split_seq (ws : string list) : string list list =
     | x :: r -> go (x :: cur) acc r in
   go [] [] ws
 let split_seq_fwd = split_seq
-let parse_fmt = function f :: ops -> (str_of_hex f, List.map parse_op ops) | [] -> failwith "seq"
+let parse_fmt = function f :: ops -> (str_of_hex f, parse_ops ops) | [] -> failwith "seq"
 (* os: the caller's stream holds "pre:" and has a pending width / fill / adjustment (l = left; r, i = right, internal) *)
 let pre = str_of_hex "7072653a" and sentinel = str_of_hex "21"
 let parse_adj = function "l" -> true | "r" | "i" -> false | _ -> failwith "adj"
@@ -69,7 +75,7 @@ let obs_stream (s, returned) = "O " ^ hex_of_str s ^ (if returned then " K" else
    the arguments given before; after std::swap (sw) it holds the other formatter (other format, one argument "old") *)
 let scenarios = ["mc"; "mcd"; "mcr"; "ma"; "mad"; "cc"; "ccd"; "ca"; "cad"; "vec"; "ret"; "sw"]
 let parse_rel ws = match split_seq_fwd ws with
-  | [a; b] -> (List.map parse_op a, List.map parse_op b)
+  | [a; b] -> (parse_ops a, parse_ops b)
   | _ -> failwith "rel"
 let old_arg = AStr (str_of_hex "6f6c64")
 let rel_source_with (eval : byte list -> op list -> res) scn f other pre =
@@ -79,11 +85,17 @@ let rel_source_with (eval : byte list -> op list -> res) scn f other pre =
   | "sw" -> obs_short (eval other [Pct old_arg])
   | _ -> "_"
 let rel_source = rel_source_with format_chain
+(* excf: raise("pre:", formatter, "!") — the formatter is an argument of the exception; with a wrong number of arguments the
+   raise inside str() is what leaves the call (its message does not start with pre:) *)
+let obs_excf = function
+  | Ok s -> "W " ^ hex_of_str (pre @ s @ sentinel)
+  | Raise _ -> "W-ARITY"
 let in_scope_exc args = List.for_all stateless args
 let model ws =
   try (match ws with
-  | "fmt" :: f :: ops -> obs_res (format_chain (str_of_hex f) (List.map parse_op ops))
-  | "os" :: w :: c :: adj :: f :: ops -> obs_stream (stream_chain (parse_stream w c adj) (str_of_hex f) (List.map parse_op ops) sentinel)
+  | ("fmt" | "lit") :: f :: ops -> obs_res (format_chain (str_of_hex f) (parse_ops ops))
+  | "excf" :: f :: ops -> obs_excf (format_chain (str_of_hex f) (parse_ops ops))
+  | "os" :: w :: c :: adj :: f :: ops -> obs_stream (stream_chain (parse_stream w c adj) (str_of_hex f) (parse_ops ops) sentinel)
   | "rel" :: scn :: f :: other :: rest ->
       let (pre, post) = parse_rel rest in
       "M " ^ obs_short (reloc_chain (str_of_hex f) pre post) ^ " " ^ rel_source scn (str_of_hex f) (str_of_hex other) pre
@@ -98,13 +110,14 @@ let model ws =
 let spec_obs (f, ops) = spec_format f (List.map render (flatten_ops ops))
 let oracle case obs =
   match case, words obs with
-  | "fmt" :: f :: ops, o ->
-      (match spec_obs (str_of_hex f, List.map parse_op ops), o with
+  | "excf" :: f :: ops, o -> String.concat " " o = obs_excf (spec_obs (str_of_hex f, parse_ops ops))
+  | ("fmt" | "lit") :: f :: ops, o ->
+      (match spec_obs (str_of_hex f, parse_ops ops), o with
        | Raise _, ["RAISE"] -> true
        | Ok s, ["S"; x] -> str_of_hex x = s
        | _ -> false)
   | "os" :: w :: c :: adj :: f :: ops, ["O"; x; k] ->
-      let rendered = List.map render (flatten_ops (List.map parse_op ops)) in
+      let rendered = List.map render (flatten_ops (parse_ops ops)) in
       let (s, returned) = spec_stream pre (nat_of_int (int_of_string w)) (parse_fill c) (parse_adj adj) (str_of_hex f) rendered sentinel in
       str_of_hex x = s && k = (if returned then "K" else "R")
   | "rel" :: scn :: f :: other :: rest, ["M"; tgt; src] ->
